@@ -152,16 +152,24 @@ func (app *Application) disburseFeesVQ(
 	if err = denom.Add(&consensusParameters.FeeSplitWeightNextPropose); err != nil {
 		return fmt.Errorf("add FeeSplitWeightNextPropose: %w", err)
 	}
-	shareNextProposer := perValidator.Clone()
-	if err = shareNextProposer.Mul(&consensusParameters.FeeSplitWeightNextPropose); err != nil {
-		return fmt.Errorf("multiply shareNextProposer: %w", err)
-	}
-	if err = shareNextProposer.Quo(denom); err != nil {
-		return fmt.Errorf("divide shareNextProposer: %w", err)
-	}
-	shareVote := perValidator.Clone()
-	if err = shareVote.Sub(shareNextProposer); err != nil {
-		return fmt.Errorf("subtract shareVote: %w", err)
+	// The vote and next-propose weights may both be zero while fees that were split under
+	// previous (non-zero) weights are still pending, e.g. right after a parameter change.
+	// There is nothing to pay to voters or the next proposer then; everything goes to the
+	// common pool below.
+	shareNextProposer := quantity.NewQuantity()
+	shareVote := quantity.NewQuantity()
+	if !denom.IsZero() {
+		shareNextProposer = perValidator.Clone()
+		if err = shareNextProposer.Mul(&consensusParameters.FeeSplitWeightNextPropose); err != nil {
+			return fmt.Errorf("multiply shareNextProposer: %w", err)
+		}
+		if err = shareNextProposer.Quo(denom); err != nil {
+			return fmt.Errorf("divide shareNextProposer: %w", err)
+		}
+		shareVote = perValidator.Clone()
+		if err = shareVote.Sub(shareNextProposer); err != nil {
+			return fmt.Errorf("subtract shareVote: %w", err)
+		}
 	}
 
 	// Multiply to get the next proposer's total payment.
